@@ -1,6 +1,7 @@
-\* thorough: both sockets x every ordered list of 1..4 distinct plugs
+\* thorough: every socket x every ordered list of 1..4 distinct plugs
 CONSTANTS
   MaxPlugs = 4
+  DEV_FirstOnTrack = FALSE
 SPECIFICATION Spec
-INVARIANTS ImplConforms EmitReplay
+INVARIANTS ImplConforms SocketImportsKept EmitReplay
 CHECK_DEADLOCK FALSE
